@@ -78,11 +78,11 @@ func (r SplineNodeData) Process() ([]trs.TRS, error) {
 	}
 
 	if times == 1 {
-		SplineExlusive(curve, 1)
+		return SplineExlusive(curve, 1), nil
 	}
 
 	if times == 2 {
-		Spline(curve, 0)
+		return Spline(curve, 0), nil
 	}
 
 	return Spline(curve, times-2), nil
